@@ -621,6 +621,12 @@ func (pp *partitionProducer) newHighWatermark(hwm int) {
 	// back to us and we can safely flush the backlog (otherwise we risk re-ordering messages)
 	pp.retryState[pp.highWatermark].expectChaser = true
 	pp.parent.inFlight.Add(1) // we're generating a fin message; track it so we don't shut down while it's still inflight
+	if pp.brokerProducer == nil {
+		// the last leader lookup failed, so there is no broker worker to chase through (and nothing
+		// of this partition can be buffered in one): put the chaser straight into the retry queue
+		pp.parent.retryMessage(&ProducerMessage{Topic: pp.topic, Partition: pp.partition, flags: fin, retries: pp.highWatermark - 1}, ErrLeaderNotAvailable)
+		return
+	}
 	verifGate("pp.fin", pp.topic, pp.partition)
 	pp.brokerProducer.input <- &ProducerMessage{Topic: pp.topic, Partition: pp.partition, flags: fin, retries: pp.highWatermark - 1}
 
